@@ -85,3 +85,26 @@ with ok_wu (u : word_unit) : bool :=
 
 Definition ok_text (t : text) : bool := forallb ok_tu t.
 Definition ok_word (w : word) : bool := forallb ok_wu w.
+
+(* no `$(...)` command substitution anywhere in the unit (backquotes are not
+   parsed by the lexer and are allowed) *)
+Fixpoint nocs_tu (u : text_unit) : bool :=
+  match u with
+  | CommandSubst _ => false
+  | BracedParam _ m =>
+      match m with
+      | MSwitch _ _ w | MTrim _ _ w => forallb nocs_wu w
+      | _ => true
+      end
+  | Arith t => forallb nocs_tu t
+  | _ => true
+  end
+with nocs_wu (u : word_unit) : bool :=
+  match u with
+  | Unquoted t => nocs_tu t
+  | DoubleQuote t => forallb nocs_tu t
+  | _ => true
+  end.
+
+Definition nocs_text (t : text) : bool := forallb nocs_tu t.
+Definition nocs_word (w : word) : bool := forallb nocs_wu w.
